@@ -114,7 +114,7 @@ STACK_PROPS = {
 }
 STR_COLS = {"hitsound_file", "keysounds", "sample"}
 BOOL_COLS = {"kiai"}
-FOREIGN = ["multiplier", "pan", "zz", "index", "volume"]
+FOREIGN = ["multiplier", "pan", "zz", "yy", "volume"]
 
 
 def numeric_col(c):
@@ -298,7 +298,7 @@ def loc_rules_ok(game, m, ops):
     for op in ops:
         if op["k"] in ("loc_set", "loc_map") and op["sid"] < len(sts):
             st = sts[op["sid"]]
-            foreign = any(c not in st["cols"] and c != "index" for c in op["cols"])
+            foreign = any(c not in st["cols"] for c in op["cols"])
             bad_len = "bits" in op["mask"] and len(op["mask"]["bits"]) != st["n"]
             if foreign and (bad_len or st["n"] == 0):
                 return False
@@ -936,6 +936,13 @@ def run_map(case, drv):
         i = first_bad if first_bad is not None else 0
         detail["spec"] = dict(step=i, op=sent_ops[i], fresh=fresh[i] if i < len(fresh) else None,
                               diff=first_diff([{k: v for k, v in l.items() if k != "labels"} for l in impl_steps[i]], so["spec"][i]))
+    # a call the proved model performs (through an up-to-date stacker) must not raise: the assignment did not happen
+    for i, st in enumerate(mo["steps"]):
+        if i < len(impl_errs) and impl_errs[i] is not None and st["err"] is None and fresh[i] and (first_bad is None or i <= first_bad):
+            ok = False
+            first_bad = i
+            detail["raises"] = dict(step=i, op=sent_ops[i], impl_err=impl_errs[i], model_err=None)
+            break
     stale = any(not f for f in fresh)
     if stale:
         tags.append("stale-stacker")
@@ -1011,6 +1018,12 @@ def run_set(case, drv):
         i = first_bad or 0
         detail["spec"] = dict(step=i, op=sent_ops[i], impl=impl_steps[i], spec=sp["ok"]["spec"][i])
     fresh = m["ok"]["fresh"]
+    for i, st in enumerate(m["ok"]["steps"]):
+        if i < len(impl_errs) and impl_errs[i] is not None and st["err"] is None and fresh[i] and (first_bad is None or i <= first_bad):
+            ok = False
+            first_bad = i
+            detail["raises"] = dict(step=i, op=sent_ops[i], impl_err=impl_errs[i], model_err=None)
+            break
     stale = any(not f for f in fresh)
     if stale:
         tags.append("stale-stacker")
